@@ -406,7 +406,8 @@ template <class R> static void ce_line(const char* rn) {
     CEQ(qa == qa, a == a) CEQ(qa <= qa, a <= a) CEQ(qa >= qa, a >= a) CEQ(qa < qa, a < a) CEQ(qb < qa, b < a) CEQ(qb >= qa, b >= a)
     CEQ(ce_as(qa, qb, 0).in(U{}), ce_ras(a, b, 0)) CEQ(ce_as(qa, qb, 1).in(U{}), ce_ras(a, b, 1))
     CEQ(ce_sc(qa, b, 0).in(U{}), ce_rsc(a, b, 0)) CEQ(ce_sc(qa, b, 1).in(U{}), ce_rsc(a, b, 1))
-    CEQ(au::QuantityMaker<U>{}(a).in(au::QuantityMaker<U>{}), a) CEQ(au::Quantity<U, R>{}.in(U{}), R{})
+    using QR = au::Quantity<U, R>;
+    CEQ(au::QuantityMaker<U>{}(a).in(au::QuantityMaker<U>{}), a) CEQ(QR{}.in(U{}), R{})
 #undef CEQ
     bad += CEUnary<R>::bad();
     std::printf("C %s n=%d bad=%d\n", rn, n + 3, bad);
@@ -553,21 +554,22 @@ template <class T> static void single(const char* s) {
                 Fmt<T>::s(y9).c_str(), Fmt<T>::s(y10).c_str(), Fmt<T>::s(p).c_str(), Fmt<T>::s(m).c_str(), (long)g_ub);
 }
 // the round trip inside constant expressions, for the special values of the floating reps
-template <class T> struct CK;
-#define CKDEF(T, SUF, NANF, NANSF, INF) template <> struct CK<T> { static void f() { \
-    int bad = 0, n = 0; \
-    { constexpr T c = T(0); constexpr T y = au::QuantityMaker<U>{}(c).in(au::QuantityMaker<U>{}); ++n; if (!same_bits(c, y)) ++bad; } \
-    { constexpr T c = -T(0); constexpr T y = au::QuantityMaker<U>{}(c).in(au::QuantityMaker<U>{}); ++n; if (!same_bits(c, y)) ++bad; } \
-    { constexpr T c = INF(); constexpr T y = au::QuantityMaker<U>{}(c).in(U{}); ++n; if (!same_bits(c, y)) ++bad; } \
-    { constexpr T c = -INF(); constexpr T y = au::QuantityMaker<U>{}(c).in(U{}); ++n; if (!same_bits(c, y)) ++bad; } \
-    { constexpr T c = NANF("0x12345"); constexpr T y = au::QuantityMaker<U>{}(c).in(U{}); ++n; if (!same_bits(c, y)) ++bad; } \
-    { constexpr T c = -NANF("0x2345"); constexpr T y = au::make_quantity<U>(c).template in<T>(U{}); ++n; if (!same_bits(c, y)) ++bad; } \
-    { constexpr T c = std::numeric_limits<T>::denorm_min(); constexpr T y = au::QuantityMaker<U>{}(c).in(U{}); ++n; if (!same_bits(c, y)) ++bad; } \
-    { constexpr T c = std::numeric_limits<T>::max(); constexpr T y = au::QuantityMaker<U>{}(c).in(U{}); ++n; if (!same_bits(c, y)) ++bad; } \
+template <class T> struct FB;
+template <> struct FB<float> { static constexpr float nan1() { return __builtin_nanf("0x12345"); } static constexpr float nan2() { return __builtin_nanf("0x2345"); } static constexpr float inf() { return __builtin_inff(); } };
+template <> struct FB<double> { static constexpr double nan1() { return __builtin_nan("0x12345"); } static constexpr double nan2() { return __builtin_nan("0x2345"); } static constexpr double inf() { return __builtin_inf(); } };
+template <> struct FB<long double> { static constexpr long double nan1() { return __builtin_nanl("0x12345"); } static constexpr long double nan2() { return __builtin_nanl("0x2345"); } static constexpr long double inf() { return __builtin_infl(); } };
+template <class T> struct CK { static void f() {
+    int bad = 0, n = 0;
+    using M = au::QuantityMaker<U>;
+    { constexpr T c = T(0); constexpr T y = M{}(c).in(M{}); ++n; if (!same_bits(c, y)) ++bad; }
+    { constexpr T c = -T(0); constexpr T y = M{}(c).in(M{}); ++n; if (!same_bits(c, y)) ++bad; }
+    { constexpr T c = FB<T>::inf(); constexpr T y = M{}(c).in(U{}); ++n; if (!same_bits(c, y)) ++bad; }
+    { constexpr T c = -FB<T>::inf(); constexpr T y = M{}(c).in(U{}); ++n; if (!same_bits(c, y)) ++bad; }
+    { constexpr T c = FB<T>::nan1(); constexpr T y = M{}(c).in(U{}); ++n; if (!same_bits(c, y)) ++bad; }
+    { constexpr T c = -FB<T>::nan2(); constexpr T y = au::make_quantity<U>(c).template in<T>(U{}); ++n; if (!same_bits(c, y)) ++bad; }
+    { constexpr T c = std::numeric_limits<T>::denorm_min(); constexpr T y = M{}(c).in(U{}); ++n; if (!same_bits(c, y)) ++bad; }
+    { constexpr T c = std::numeric_limits<T>::max(); constexpr T y = M{}(c).in(U{}); ++n; if (!same_bits(c, y)) ++bad; }
     std::printf("K n=%d bad=%d\n", n, bad); } };
-CKDEF(float, f, __builtin_nanf, __builtin_nansf, __builtin_inff)
-CKDEF(double, , __builtin_nan, __builtin_nans, __builtin_inf)
-CKDEF(long double, l, __builtin_nanl, __builtin_nansl, __builtin_infl)
 template <class T, bool Fl = std::is_floating_point<T>::value> struct CKD { static void f() {
     constexpr T lo = std::numeric_limits<T>::lowest(), hi = std::numeric_limits<T>::max();
     constexpr T y1 = au::QuantityMaker<U>{}(lo).in(U{}); constexpr T y2 = au::make_quantity<U>(hi).template in<T>(U{});
